@@ -7,8 +7,10 @@ import (
 	"fmt"
 	"os"
 	"path/filepath"
+	"reflect"
 	"sync"
 	"time"
+	"unsafe"
 
 	"github.com/massnetorg/mass-core/blockchain"
 	"github.com/massnetorg/mass-core/blockchain/state"
@@ -64,7 +66,7 @@ func (l *memStore) Has(key []byte) (bool, error) {
 	}
 	return err == nil, err
 }
-func (l *memStore) Delete(key []byte) error    { return l.db.Delete(key, nil) }
+func (l *memStore) Delete(key []byte) error   { return l.db.Delete(key, nil) }
 func (l *memStore) NewBatch() dbstorage.Batch { return &memBatch{b: new(leveldb.Batch)} }
 func (l *memStore) Write(b dbstorage.Batch) error {
 	lb, ok := b.(*memBatch)
@@ -100,14 +102,14 @@ func (b *memBatch) Delete(k []byte) error {
 	b.b.Delete(k)
 	return nil
 }
-func (b *memBatch) Reset()                 { b.b.Reset() }
-func (b *memBatch) Release()               { b.b = nil }
-func (it *memIter) Seek(k []byte) bool     { return it.iter.Seek(k) }
-func (it *memIter) Next() bool             { return it.iter.Next() }
-func (it *memIter) Key() []byte            { return it.iter.Key() }
-func (it *memIter) Value() []byte          { return it.iter.Value() }
-func (it *memIter) Release()               { it.iter.Release() }
-func (it *memIter) Error() error           { return it.iter.Error() }
+func (b *memBatch) Reset()             { b.b.Reset() }
+func (b *memBatch) Release()           { b.b = nil }
+func (it *memIter) Seek(k []byte) bool { return it.iter.Seek(k) }
+func (it *memIter) Next() bool         { return it.iter.Next() }
+func (it *memIter) Key() []byte        { return it.iter.Key() }
+func (it *memIter) Value() []byte      { return it.iter.Value() }
+func (it *memIter) Release()           { it.iter.Release() }
+func (it *memIter) Error() error       { return it.iter.Error() }
 
 // ---- process-wide node facade objects the wallet only touches lightly ----------------------
 
@@ -231,6 +233,19 @@ func (n *Node) publishHeight() {
 		return
 	}
 	sharedChain.BestBlockNode().Height = n.Height()
+	pointSharedChainAt(n.db)
+}
+
+// pointSharedChainAt lets the shared Blockchain answer its pass-through data queries
+// (GetTransactionInDB, GetUnexpiredStakingRank, ... - used by package api's handlers, never by the
+// wallet itself) from the chain database of the node that published its height last, as the real
+// node's Blockchain answers from the one chain database. The field is unexported in mass-core.
+func pointSharedChainAt(db database.Db) {
+	f := reflect.ValueOf(sharedChain).Elem().FieldByName("db")
+	if !f.IsValid() {
+		return
+	}
+	reflect.NewAt(f.Type(), unsafe.Pointer(f.UnsafeAddr())).Elem().Set(reflect.ValueOf(db))
 }
 
 var noPublish = os.Getenv("VERIF_NO_PUBLISH_HEIGHT") != ""
@@ -383,9 +398,9 @@ func (n *Node) KnownTx(h wire.Hash) *wire.MsgTx {
 type Server struct{ N *Node }
 
 func (s *Server) Blockchain() *blockchain.Blockchain { return sharedChain }
-func (s *Server) ChainDB() database.Db                { return &lockedDb{Db: s.N.db, n: s.N} }
-func (s *Server) TxMemPool() *blockchain.TxPool       { return sharedPool }
-func (s *Server) SyncManager() *netsync.SyncManager   { return sharedSync }
+func (s *Server) ChainDB() database.Db               { return &lockedDb{Db: s.N.db, n: s.N} }
+func (s *Server) TxMemPool() *blockchain.TxPool      { return sharedPool }
+func (s *Server) SyncManager() *netsync.SyncManager  { return sharedSync }
 
 // lockedDb is the node's chain database as the wallet sees it. In the real node the blockchain
 // serialises block connection against readers; the simulator calls the chain database directly from
